@@ -24,10 +24,12 @@ META = {
 }
 
 
-def D(e, f):
-    """total time derivative of AST e along x' = f (list of AST), p/v constant"""
+def D(e, f, u_const=False):
+    """total time derivative of AST e along x' = f (list of AST), p/v constant (u too when u_const)"""
     op = e.op
     if op == 'c':
+        return C(0)
+    if op == 'u' and u_const:
         return C(0)
     if op == 'x':
         return f[e.a[0]]
@@ -36,20 +38,20 @@ def D(e, f):
     if op in ('p', 'v', 'T', 't0'):
         return C(0)
     if op == '+':
-        return D(e.a[0], f) + D(e.a[1], f)
+        return D(e.a[0], f, u_const) + D(e.a[1], f, u_const)
     if op == '-':
-        return D(e.a[0], f) - D(e.a[1], f)
+        return D(e.a[0], f, u_const) - D(e.a[1], f, u_const)
     if op == 'neg':
-        return -D(e.a[0], f)
+        return -D(e.a[0], f, u_const)
     if op == '*':
-        return D(e.a[0], f) * e.a[1] + e.a[0] * D(e.a[1], f)
+        return D(e.a[0], f, u_const) * e.a[1] + e.a[0] * D(e.a[1], f, u_const)
     if op == '/':
-        return (D(e.a[0], f) * e.a[1] - e.a[0] * D(e.a[1], f)) / (e.a[1] * e.a[1])
+        return (D(e.a[0], f, u_const) * e.a[1] - e.a[0] * D(e.a[1], f, u_const)) / (e.a[1] * e.a[1])
     if op == 'pow':
         n = e.a[1]
         if n == 0:
             return C(0)
-        return C(n) * E('pow', e.a[0], n - 1) * D(e.a[0], f)
+        return C(n) * E('pow', e.a[0], n - 1) * D(e.a[0], f, u_const)
     raise Unsupported('reference derivative of %s' % op)
 
 
